@@ -57,6 +57,11 @@ func (ups *Packet) ConnectPacket(manager cert.TlsConfig, mustSecure bool, connec
 	var pass []byte
 	var salt []byte
 
+	// The credentials are taken out of the address below (it is logged and resolved without
+	// them); they belong to this upstream and are needed again by the next Connect (reconnect)
+	user := ups.Address.User
+	defer func() { ups.Address.User = user }()
+
 	if ups.Address.User != nil {
 		if p, set := ups.Address.User.Password(); set && p != "" {
 			secure = true
